@@ -495,6 +495,14 @@ impl Tcp {
             .clone()
     }
 
+    /// The accepting side shares the connector's flow control (inverted);
+    /// record it so a reset can reach the local writer.
+    pub(crate) fn set_flow_control(&mut self, pair: SocketPair, flow_control: BidiFlowControl) {
+        if let Some(sock) = self.sockets.get_mut(&pair) {
+            sock.flow_control = flow_control;
+        }
+    }
+
     pub(crate) fn stream_count(&self) -> usize {
         self.sockets.len()
     }
@@ -545,10 +553,9 @@ impl Tcp {
                 None => {}
             },
             Segment::Rst => {
-                if self.sockets.get(&SocketPair::new(dst, src)).is_some() {
-                    self.sockets
-                        .swap_remove(&SocketPair::new(dst, src))
-                        .unwrap();
+                if let Some(sock) = self.sockets.swap_remove(&SocketPair::new(dst, src)) {
+                    // a writer parked on a full window must fail, not hang
+                    sock.flow_control.reset_writer();
                 }
             }
         };
